@@ -124,6 +124,18 @@ def generate(rng, ctx):
                     if not isinstance(h2, dict):
                         continue
                 ops.insert(rng.randrange(len(ops) + 1), op)
+    for path in inc:
+        if "." in path or rng.random() < 0.4:
+            continue
+        # a document whose include file resolves and supplies values, then - right after it - a document that sets nothing
+        # itself and names an include file that is not there: the failed load leaves what the first one brought
+        fmt = rng.choice(history.FORMATS)
+        vals = gen.tree_for(rng, schema, env, valid=True, partial=0.5)
+        vals.pop(path, None)
+        at = rng.randrange(len(ops) + 1)
+        ops[at:at] = [{"op": "loads", "tree": {path: "$DIR/inc_vals.cfg"}, "fmt": fmt, "make_files": {"inc_vals.cfg": vals},
+                       "unpredicted": True, "include_supplies_values": True},
+                      {"op": "loads", "tree": {path: "$DIR/not-there.cfg"}, "fmt": fmt, "include_fail": True, "unpredicted": True}]
     for _ in range(rng.choice([1, 2, 3])):
         tree = gen.tree_for(rng, schema, env, valid=True, partial=0.5)
         ops.insert(rng.randrange(len(ops) + 1), {"op": "loads", "tree": tree, "fmt": rng.choice(history.FORMATS),
